@@ -451,7 +451,7 @@ Definition state_entry_read (entry_index dest_start length offset : N) : M1 (opt
 Definition get_mut (id : N) (e : entry) (v : list N) (charge : N) : M1 unit :=
   if e_owned e then ret tt
   else
-    tick charge ;;; emit (EvAlloc (lenN v)) ;;;
+    tick charge ;;; emit (EvCopy (lenN v)) ;;;                  (* copy of the existing value *)
     s <- get_is ;;
     set_is (is_with_entries s (setnthN id (mkEntry (e_key e) (Some v) true) (is_entries s))).
 
